@@ -42,7 +42,6 @@ NOT_APPLICABLE = {
     'C35': 'check not built yet (contracts designed in DESIGN.md section 5, proof not closed in this framework yet)',
     'C36': 'check not built yet (contracts designed in DESIGN.md section 5, proof not closed in this framework yet)',
     'C37': 'copy constructor loops to `buffersSize_` | arena with 3 buffers | loop to `buffersPos_` | **run** (ASan): SEGV in `memcpy` copying an arena with 3 buffers',
-    'C38': '`emplace_back(v)` with `v` inside the vector and growth | `sv.push_back(sv[0])` at capacity | construct the new element before releasing old storage | read only',
     'C39': 'check not built yet (contracts designed in DESIGN.md section 5, proof not closed in this framework yet)',
     'C40': '`OpResult(OpResult&&)` / move-assign: `oth.ptr_ = nullptr` without destroying | any engaged source | destroy the moved-from object before disengaging | **run**: one lifetime-counted object still live after both OpResults are destroyed',
     'C41': '`bytesAllocated`: `compare_exchange_weak(allocId, 1)` retry keeps the observed value | lock held by an allocating thread | reset `allocId = 0` each iteration | read only',
@@ -273,3 +272,18 @@ CLAIMED['C23'] = dict(
          "completely; the default N=128 is not run. Progress ('blocked lockers always proceed once conflicts are released') is NOT decided. Interference on the other slots during an operation "
          "is covered by the stability of the slot contracts under the rely (argued) and checked for the final state.",
     technique="CBMC DFCC contracts, modular (callee contracts from C22 by replacement), ghost decomposition per slot, arbitrary-slot postconditions, rely applied to all slots before the closing assertions")
+
+CLAIMED['C38'] = dict(
+    category='proof',
+    text="Contracts (CBMC DFCC) on the extracted bodies of SmallVector: the representation accessors isInline, rawSize, data, capacity, setSize are proved for all states (heap bit / size mask "
+         "arithmetic, no bound); every operation that walks or relocates elements - emplace_back (both push_back forms), pop_back, resize x2, erase, clear, reserve, ensureCapacity, growToHeap, "
+         "relocateToHeap, destroyAll, the destructor and the move constructor - is checked against its contract with the element loops unwound for vectors of at most 4 elements (BOUNDED "
+         "stand-ins, listed under `bounded` in the evidence and never counted as proved). Obligations at every element access: storage not released, index inside the allocation, storage "
+         "aligned for T (inline buffer alignas(T); heap block from ::operator new only if alignof(T) <= alignof(max_align_t), otherwise alignedMalloc, released by the matching function); "
+         "construct/destroy balance equals the change of size(); heap storage released exactly once and only when empty; an argument that refers to an element of the vector itself is read "
+         "before the storage it lives in is vacated (v.push_back(v[0])); sizes and capacities after each operation are std::vector's.",
+    note="Element VALUES after each operation (which index holds what) are not decided: a cell-level model with value ghosts was out of the solver's reach here (OOM / > 5 min per property). "
+         "Sizes below 2^40; N in {1,4} x alignof(T) in {8,64} quick; element type is an int tag; the storage union is rendered as separate fields. The two genuine defects this check found on "
+         "the pinned tree were repaired (fix: commits 2fd2343, d72db5c in known_findings.txt): misaligned heap storage for over-aligned T, and push_back(v[i]) at capacity reading a destroyed "
+         "element. Iterator-pair / initializer_list / copy operations are not under contract.",
+    technique="CBMC DFCC function contracts over mechanically extracted bodies with storage-handle ghosts (capacity, alignment, live count, released); bounded unwinding for the element loops")
